@@ -734,7 +734,11 @@ class Sym:
 
     def __round__(self, n=None):
         if n is not None:
-            raise Unsupported('round(x, n) on symbolic')
+            if not isinstance(n, int) or n < 0 or n > 12:
+                raise Unsupported('round(x, n) on symbolic for this n')
+            scale = 10 ** n
+            r = round(Sym(z3.simplify(toreal(self.t) * scale)))          # half-to-even on the scaled value (reals, not binary64 decimals)
+            return Sym(z3.simplify(z3.ToReal(r.t) / scale))
         if self.is_int:
             return self
         # Python 3: round half to even
